@@ -1297,8 +1297,9 @@ var ruleC7 = &Rule{
 		}
 		keys := map[string][]rec{}
 		for _, fn := range liveModuleFuncs(c, "ctrl") {
-			// a thin forwarding wrapper of the write routine records nothing of its own: its callers do
-			if api.inner[fn] != nil {
+			// a thin forwarding wrapper of the write routine records nothing of its own: its callers do; the compiler-made
+			// pointer-receiver twin of a value method (into which the method body is inlined by go/ssa) is not program text
+			if api.inner[fn] != nil || fn.Synthetic != "" {
 				continue
 			}
 			for _, b := range fn.Blocks {
